@@ -254,7 +254,6 @@ Definition sweep_ok (e : string) (obs : list (Z * option Z)) : bool :=
   match parse e with POk sp => forallb (obs_ok sp) obs | _ => false end.
 Definition sweep_naive_ok (e : string) (obs : list (Z * option Z)) : bool :=
   match parse e with POk sp => forallb (obs_ok_naive sp) obs | _ => false end.
-Set Extraction Output Directory ".".
 Extraction "cronx.ml" sweep_ok sweep_naive_ok.
 """
 
@@ -263,7 +262,6 @@ OCAML_DRIVER = r"""
 open Cronx
 let rec pos_of_int n = if n = 1 then XH else if n land 1 = 0 then XO (pos_of_int (n lsr 1)) else XI (pos_of_int (n lsr 1))
 let z_of_int n = if n = 0 then Z0 else if n > 0 then Zpos (pos_of_int n) else Zneg (pos_of_int (-n))
-let bit b = if b then True else False
 let ascii_of_int c = Ascii (c land 1 = 1, c land 2 = 2, c land 4 = 4, c land 8 = 8, c land 16 = 16, c land 32 = 32, c land 64 = 64, c land 128 = 128)
 let rec string_of_codes = function [] -> EmptyString | c :: r -> String (ascii_of_int c, string_of_codes r)
 let () =
@@ -296,12 +294,7 @@ def extracted_sweep(ctx, tool):
     if rc != 0 or not os.path.exists(os.path.join(d, "cronx.ml")):
         ctx.fail("correspondence", "extraction of the cron model failed", {"log": out[-1500:]})
         return
-    # ExtrOcamlBasic maps bool to OCaml bool: adapt the driver's constructors
-    ml = open(os.path.join(d, "cronx.ml")).read()
-    drv = OCAML_DRIVER
-    if "type bool =" not in ml:
-        drv = drv.replace("let bit b = if b then True else False\n", "")
-    open(os.path.join(d, "drv.ml"), "w").write(drv)
+    open(os.path.join(d, "drv.ml"), "w").write(OCAML_DRIVER)
     rc, out, dt = vlib.sh("ocamlfind ocamlopt -w -a -package str cronx.mli cronx.ml drv.ml -o sweep 2>&1 || ocamlopt -w -a cronx.mli cronx.ml drv.ml -o sweep",
                           cwd=d, timeout=900)
     if not os.path.exists(os.path.join(d, "sweep")):
@@ -315,11 +308,23 @@ def extracted_sweep(ctx, tool):
         return
     cases = vlib.read_jsonl(p)
     lines = []
+    far_budget = 4   # the naive search walks minute by minute: only a few far / empty answers are affordable
     for c in cases:
         codes = ",".join(str(b) for b in c["expr"].encode("utf-8")) or "-"
+        if c.get("naive"):
+            keep = []
+            for t, n in c["obs"]:
+                near = n is not None and n * 60 - t < 3 * 86400
+                if near or far_budget > 0:
+                    keep.append([t, n])
+                    if not near:
+                        far_budget -= 1
+            c["obs"] = keep
         obs = " ".join("%d:%s" % (t, "z" if n is None else str(n)) for t, n in c["obs"])
         lines.append("%s %s %s" % ("n" if c.get("naive") else "f", codes, obs))
-    rc, out, dt = vlib.sh([os.path.join(d, "sweep")], inp="\n".join(lines) + "\n", timeout=1500)
+    open(os.path.join(d, "in.txt"), "w").write("\n".join(lines) + "\n")
+    # the extracted naive search builds its fuel as a unary nat of ~3 million nodes: needs a deep stack
+    rc, out, dt = vlib.sh("ulimit -s unlimited 2>/dev/null || ulimit -s 4000000; exec ./sweep < in.txt", cwd=d, timeout=1500)
     res = out.split()
     nobs = 0
     for c, r in zip(cases, res):
